@@ -15,22 +15,22 @@ def C(text, ref, technique=T, note=NOTE, category="model_checking"):
 CLAIMED = {
  "C01": C("Step lemmas over unbounded integers on the real next_*_state functions, on one iteration of _form_rings_bilocally from an arbitrary pre-state and on one iteration of _derive_mol_from_symbols from an arbitrary loop-head state with the recursive call replaced by its contract (an induction step: counts never exceed capacities and the state never promises more than the current atom has free); ring-label allocation with up to 120/400 earlier rings; mol_to_smiles on solver-chosen ring-bond sets over two fragments; and every string of N symbols (A_core N<=6/8, two-element alphabet with '.' N<=3/4) under every table with capacities 0..9: the real decoder's output is read by an independent SMILES reader and the valence inequality is an unsat query over the table variables; RDKit clause on concrete outputs. Known finding %100 reported as KNOWN-FINDING. Bounded model checking plus inductive step lemmas; the composition of the lemmas into all lengths is an argument in DESIGN.md, not a solver verdict.", "6/C01"),
  "C02": C("Differential check on the same symbolic path: the real decoder (output read back by O-READ) against O-DERIV, an independent executable rendering of derivation.rst, for every string of N symbols over four alphabets (grammar, stereo/isotope, capacity-0 and out-of-grammar symbols, fragments and [nop]) and every table 0..9: atoms, bonds, orders, stereo marks, written neighbour order, DecoderError iff the derivation reaches a symbol outside the grammar; plus state-function equalities, the index-reading lemma (also with fewer symbols than requested) and the ring-placement step lemma (ring bonds first, in formation order) with decoder-level witnesses.", "6/C02"),
- "C03": C("Real encoder(strict=True) then decoder under the same table for every string of N SMILES tokens and every combination of slot alternatives in nine spelling templates (branch order, ring labels, bracket spellings, label order on shared atoms, 2-5 components, ring spans needing 2-3 index symbols), relaxed table, presets, and a free table; input and output are compared atom by atom and bond by bond by an independent reader.", "6/C03"),
+ "C03": C("Real encoder(strict=True) then decoder under the same table for every string of N SMILES tokens and every combination of slot alternatives in fourteen spelling templates (branch order, ring labels, bracket spellings, label order on shared atoms, explicit aromatic bonds, 2-5 components, ring spans needing 2-3 index symbols), and for every molecule skeleton of 5-6(/7) atoms in every writing order (M-SKEL: the solver chooses the spanning tree and the ring bonds), relaxed table, presets, and a free table; input and output are compared atom by atom and bond by bond by an independent reader, aromatic bonds against an independent Kekule test.", "6/C03"),
  "C04": C("Same pipeline on 14 stereo templates (chiral centres opening/closing rings in every label order, ring digit between branches, implicit H, cis/trans marks on chain and on either end of ring closures) and uniform stereo token strings; handedness judged by permutation parity of written neighbour sequences, marks per bond end.", "6/C04"),
- "C05": C("encoder(strict=True) on aromatic token strings, 5/6(/7)-ring and fused-system templates with every atom kind a slot, and 20 (+C60) systems respelled from every start atom: accepted outputs must give each standard-kind atom exactly its pi need and at most one double bond, rejections must not be kekulizable by an independent matching oracle, acceptance must not depend on the spelling; find_perfect_matching on every labelled graph with <=6/8 nodes and degree <=3 against brute force (edges are solver variables).", "6/C05"),
- "C06": C("strict=False then strict=True on the same path with the table symbolic: strict raises iff the independent bond count exceeds the capacity (solver-decided over nine table keys), same string otherwise, and no branch condition of the strict=False call mentions a table variable; plus a table change through the real setter between two strict calls (tables A and B symbolic).", "6/C06"),
- "C07": C("Real set_semantic_constraints with key spellings and free values: accepted => alphabet equals the described set (as a formula over the values) and every symbol decodes; strings of N<=4/6 symbols assumed to lie in the robust alphabet of a free table decode without error and obey it.", "6/C07"),
+ "C05": C("encoder(strict=True) on aromatic token strings, 5/6(/7)-ring and fused-system templates with every atom kind a slot, and 20 (+C60) systems respelled from every start atom: accepted outputs must give each standard-kind atom exactly its pi need and at most one double bond, rejections must not be kekulizable by an independent matching oracle, acceptance must not depend on the spelling; every aromatic skeleton of 4-6(/8) atoms a SMILES can spell (spanning tree, ring bonds and ring-bond symbols chosen by the solver) through encoder and decoder; find_perfect_matching on every labelled graph with <=6/8 nodes and degree <=3 against brute force (edges are solver variables).", "6/C05"),
+ "C06": C("strict=False then strict=True on the same path with the table symbolic: strict raises iff the independent bond count exceeds the capacity (solver-decided over nine table keys), same string otherwise, and no branch condition of the strict=False call mentions a table variable; on non-aromatic and on kekulizable aromatic inputs; plus a table change through the real setter between two strict calls (tables A and B symbolic).", "6/C06"),
+ "C07": C("Real set_semantic_constraints with key spellings and free values: accepted => alphabet equals the described set (as a formula over the values) and every symbol decodes; strings of N<=4/6 symbols assumed to lie in the robust alphabet of a free table decode without error and obey it; after a rejected update, and after a second accepted table handed over as a fresh dict, as the same dict edited in place or as an equal dict, alphabet and strings follow the table in force.", "6/C07"),
  "C08": C("Every string of N symbols over grammar, legacy and malformed symbols, every string of N characters over 16 characters, symbol cells mixed with stray brackets, and grammar symbols under a free table, with compatible and attribute as free booleans: only DecoderError may escape, table and presets unchanged, paths end within a decision budget; also decode / table change / decode again with H-bearing symbols.", "6/C08"),
  "C09": C("Every string of N<=3/4 characters over 32 characters and N<=3/5 SMILES tokens with strict and attribute free: and aromatic ring templates (kekulizable or not): only EncoderError may escape.", "6/C09"),
- "C10": C("encoder, decoder, encoder again on bracket atoms with every field a slot, C03's sets, C04's stereo templates and a free table: output well formed, decodable, identical after re-encoding, every atom symbol in the independently computed standard spelling; also after a table change between a failed decode and the round trip. Known finding (ring digit after a branch) reported as KNOWN-FINDING.", "6/C10"),
+ "C10": C("encoder, decoder, encoder again on bracket atoms with every field a slot, C03's sets, C04's stereo templates, every skeleton of 5(-7) atoms in every writing order and a free table: output well formed, decodable, identical after re-encoding, every atom symbol in the independently computed standard spelling; also after a table change between a failed decode and the round trip. Known finding (ring digit after a branch) reported as KNOWN-FINDING.", "6/C10"),
  "C11": C("Symbolic histories of K<=2/3 API calls (table values free, including rejected ones) followed by decoder(x) with x free and encoder(s, strict=False): results equal those of the same path with fresh caches and the documented table; models are replayed against a freshly imported package.", "6/C11"),
- "C12": C("Symbolic histories of K<=3/4 configuration calls over eight operation kinds with observation after every call: get equals the last accepted table (solver-decided), presets unchanged, returned objects private, alphabet derivable from the table, translation unchanged by rejected calls. Known finding (cached alphabet handed out) reported as KNOWN-FINDING.", "6/C12"),
- "C13": C("decoder(x) versus decoder(x with every [nop] deleted) on the same path for every string of N<=5/7 symbols over A_core + [nop] + '.', table, attribute and compatible free; padding through selfies_to_encoding/encoding_to_selfies with a free pad length.", "6/C13"),
- "C14": C("CrossHair confirms four contracts (split/join, len, items, alphabet) over all paths for arbitrary Unicode strings of length <=8; pathsym repeats split/join/len on well-formed strings built structurally with symbolic bodies and checks that encoder outputs are well formed and consumed token for token by the decoder.", "6/C14",
+ "C12": C("Symbolic histories of K<=3/4 configuration calls over nine operation kinds (incl. caller-side edits of passed and returned objects and re-submitting the same dict) with observation after every call: get equals the last accepted table (solver-decided), presets unchanged, returned objects private, alphabet derivable from the table, translation unchanged by rejected calls. Known finding (cached alphabet handed out) reported as KNOWN-FINDING.", "6/C12"),
+ "C13": C("decoder(x) versus decoder(x with every [nop] deleted) on the same path for every string of N<=5/7 symbols over A_core + [nop] + '.', table, attribute and compatible free; a 20-atom chain ending inside a 1-3 symbol index with [nop] among the last symbols; padding through selfies_to_encoding/encoding_to_selfies with a free pad length.", "6/C13"),
+ "C14": C("CrossHair confirms five contracts (split/join, len, items, alphabet of two and of three strings) over all paths for arbitrary Unicode strings of length <=8; pathsym repeats split/join/len on well-formed strings built structurally with symbolic bodies and checks that encoder outputs are well formed and consumed token for token by the decoder; get_alphabet_from_selfies on collections of 3/4 strings (empty, one or two symbols; list or one-shot iterator).", "6/C14",
           technique="CrossHair 0.0.110 (symbolic execution of the real functions with z3, 'Confirmed over all paths') + pathsym symbolic execution; counterexamples replayed on the pristine package"),
  "C15": C("selfies_to_encoding / encoding_to_selfies / batch functions with the vocabulary bijection (2n of n!), the string (<=3/4 symbols over three vocabularies), the pad length and enc_type symbolic: lengths, entries, one-hot rows, both inverse directions, error clauses, batch = element-wise, and two vocabularies of different sizes used one after the other.", "6/C15"),
  "C16": C("get_selfies_from_index / get_index_from_selfies with n symbolic below 16^3 (16^4 thorough), _read_index_from_selfies with 1-3 requested and 0-3 available free symbols, and ring target / branch extent through selfies.decoder with free (also truncated) indices, against the documented digit table.", "6/C16"),
- "C17": C("decoder and encoder with and without attribute on every string of N symbols / tokens and on templates with nested branches, rings and several fragments: same translation, every entry's token at the reported output index, every contributing token equal to the (still symbolic) input symbol at the reported position, every atom attributed to its creator; also outputs with ten or more ring closures (two-character labels).", "6/C17"),
+ "C17": C("decoder and encoder with and without attribute on every string of N symbols / tokens and on templates with nested branches, rings and several fragments and (encoder) on every skeleton of 5(/6) atoms in every writing order: same translation, every entry's token at the reported output index, every contributing token equal to the (still symbolic) input symbol at the reported position, every atom attributed to its creator; also outputs with ten or more ring closures (two-character labels).", "6/C17"),
  "C18": C("decoder(x, compatible=True) versus decoder(independently modernised x) versus decoder(x) on every string of N<=3/5 symbols over two legacy alphabets, all 21 legacy branch/ring symbols after a chain and at a high state, and several fragments mixing modern and legacy symbols.", "6/C18"),
 }
 NA = {
